@@ -49,6 +49,8 @@ type pathState struct {
 	funcs map[*ssa.Function]bool
 	stubs map[string]bool
 
+	beRuns map[string]*beRun // big-endian encodings of symbolic integers, keyed by the term of their most significant byte
+
 	// results collected on this path
 	asserted   map[string]int // label -> evaluated count
 	reached    map[string]bool
@@ -382,4 +384,80 @@ func sortedKeys(m map[string]bool) []string {
 	}
 	sort.Strings(out)
 	return out
+}
+
+// beRun records that bytes (most significant first) are the big-endian encoding of the integer term val
+// (created by encoding/binary Put*): comparing two such runs, or a run with concrete bytes, is comparing the values.
+type beRun struct {
+	val   string
+	bytes []string
+}
+
+// collapseBE rewrites aligned big-endian runs in two byte sequences of equal length into single value terms:
+// it returns, per position group, the pair of terms to compare (lexicographic order of the groups is preserved,
+// because a big-endian run orders like its value).
+func (st *pathState) collapseBE(a, b []value) (xs, ys []string, groups int, ok bool) {
+	n := len(a)
+	if len(b) < n {
+		n = len(b)
+	}
+	runAt := func(s []value, k int) *beRun {
+		if st == nil || st.beRuns == nil {
+			return nil
+		}
+		sv, isSym := s[k].(sym)
+		if !isSym {
+			return nil
+		}
+		r := st.beRuns[sv.t]
+		if r == nil || k+len(r.bytes) > n {
+			return nil
+		}
+		for j, bt := range r.bytes {
+			o, isSym := s[k+j].(sym)
+			if !isSym || o.t != bt {
+				return nil
+			}
+		}
+		return r
+	}
+	concreteVal := func(s []value, k, m int) (string, bool) {
+		v := new(big.Int)
+		for j := 0; j < m; j++ {
+			c, isC := s[k+j].(uint8)
+			if !isC {
+				return "", false
+			}
+			v.Lsh(v, 8).Or(v, big.NewInt(int64(c)))
+		}
+		return bigLit(v), true
+	}
+	any := false
+	for k := 0; k < n; {
+		ra, rb := runAt(a, k), runAt(b, k)
+		switch {
+		case ra != nil && rb != nil && len(ra.bytes) == len(rb.bytes):
+			xs, ys = append(xs, ra.val), append(ys, rb.val)
+			k += len(ra.bytes)
+			any = true
+			continue
+		case ra != nil:
+			if cv, isC := concreteVal(b, k, len(ra.bytes)); isC {
+				xs, ys = append(xs, ra.val), append(ys, cv)
+				k += len(ra.bytes)
+				any = true
+				continue
+			}
+		case rb != nil:
+			if cv, isC := concreteVal(a, k, len(rb.bytes)); isC {
+				xs, ys = append(xs, cv), append(ys, rb.val)
+				k += len(rb.bytes)
+				any = true
+				continue
+			}
+		}
+		xs, ys = append(xs, termOf(a[k])), append(ys, termOf(b[k]))
+		k++
+	}
+	return xs, ys, len(xs), any
 }
